@@ -85,12 +85,11 @@ Definition ocheckF13 (c : ocase13) : bool :=
 Definition ocheckS13 (c : ocase13) : bool :=
   negb (o13_rd_timeout c) &&
   (if o13_mm_ok c && o13_rd_ok c then oview_eqb_ns (o13_mm c) (o13_rd c) else true).
-(* region 11: single-step file (neither reader can infer the layer count);
+(* (single-step files: neither reader can infer the layer count, both raise: no disagreement, no region);
    region 13: the two-digit-year julian date changes its year between consecutive steps *)
 Definition oregion13 (c : ocase13) : nat :=
   let ds := o_dates (o13_c c) in
-  if Z.of_nat (length ds) <? 2 then 11%nat
-  else if existsb (fun p => negb (fst p / 1000 =? snd p / 1000)) (combine ds (tl ds)) then 13%nat else 0%nat.
+  if existsb (fun p => negb (fst p / 1000 =? snd p / 1000)) (combine ds (tl ds)) then 13%nat else 0%nat.
 
 (* ---- temperature: Memmap reader vs record reader ------------------------------------------------------ *)
 Record tcase13 := TCase13 {
@@ -132,7 +131,7 @@ Definition tcheckS13 (c : tcase13) : bool :=
 Definition year_cross (ds : list Z) : bool := existsb (fun p => negb (fst p / 1000 =? snd p / 1000)) (combine ds (tl ds)).
 Definition tregion13 (c : tcase13) : nat :=
   let ds := map ts_date (t_steps (t13_c c)) in
-  if Z.of_nat (length ds) <? 2 then 11%nat else if year_cross ds then 13%nat else 0%nat.
+  if year_cross ds then 13%nat else 0%nat.
 
 (* ---- height_pressure ----------------------------------------------------------------------------------- *)
 Record hcase13 := HCase13 {
@@ -168,7 +167,7 @@ Definition hcheckS13 (c : hcase13) : bool :=
   negb (h13_rd_timeout c) && (if h13_mm_ok c && h13_rd_ok c then hview_eqb (h13_mm c) (h13_rd c) else true).
 Definition hregion13 (c : hcase13) : nat :=
   let ds := map hs_date (h_steps (h13_c c)) in
-  if Z.of_nat (length ds) <? 2 then 11%nat else if year_cross ds then 13%nat else 0%nat.
+  if year_cross ds then 13%nat else 0%nat.
 
 (* ---- wind: Memmap reader vs record reader ---------------------------------------------------------------- *)
 Record wcase13 := WCase13 {
@@ -198,12 +197,11 @@ Definition wcheckF13 (c : wcase13) : bool :=
 Definition wcheckS13 (c : wcase13) : bool :=
   negb (w13_rd_timeout c) && negb (w13_mm_status c =? 2)
   && (if (w13_mm_status c =? 0) && w13_rd_ok c then wview_eqb (w13_mm c) (w13_rd c) else true).
-(* region 11: single-step file (the record reader never returns); region 12: 1x1 grid; region 13: year crossing *)
+(* region 13: year crossing. (Regions 11 / 12 -- the record reader never returning on single-step and 1x1 files -- were
+   retired by f70e760: single-step files make both readers or the record reader raise, which is not a disagreement.) *)
 Definition wregion13 (c : wcase13) : nat :=
   let ds := map ws_date (w_steps (w13_c c)) in
-  if w_nx (w13_c c) * w_ny (w13_c c) =? 1 then 12%nat
-  else if Z.of_nat (length ds) <? 2 then 11%nat
-  else if year_cross ds then 13%nat else 0%nat.
+  if year_cross ds then 13%nat else 0%nat.
 
 Inductive case_t :=
 | WC (c : wcase13)
